@@ -458,6 +458,20 @@ func checkNTS(t failer, c ntsCase) {
 	if !bytes.Equal(d.Auth.Nonce, wireNonce) || !bytes.Equal(d.Auth.CipherText, wireCT) {
 		t.Fatalf("decoded nonce/ciphertext differ from the bytes on the wire")
 	}
+	// RFC 8915 5.6: the authenticator field may carry additional padding behind the ciphertext - a valid encoding of
+	// the same packet (the field is the last one and not part of the associated data)
+	if pad := 4 * int(c.Filler%5); pad > 0 && len(b)+pad <= nts.MaxPacketLen {
+		bp := append(bytes.Clone(b), make([]byte, pad)...)
+		binary.BigEndian.PutUint16(bp[auth.off+2:], uint16(4+len(auth.body)+pad))
+		var dp nts.Packet
+		if err := nts.DecodePacket(&dp, bp); err != nil {
+			t.Fatalf("DecodePacket refused the packet with %d bytes of additional padding in the authenticator field: %v", pad, err)
+		}
+		if len(dp.Cookies) != len(d.Cookies) || len(dp.CookiePlaceholders) != len(d.CookiePlaceholders) || !bytes.Equal(dp.UniqueID.ID, d.UniqueID.ID) ||
+			!bytes.Equal(dp.Auth.Nonce, d.Auth.Nonce) || !bytes.Equal(dp.Auth.CipherText, d.Auth.CipherText) {
+			t.Fatalf("with %d bytes of additional padding in the authenticator field the packet decodes differently", pad)
+		}
+	}
 	if len(c.Unknown) == 0 {
 		return
 	}
@@ -501,7 +515,7 @@ func checkNTS(t failer, c ntsCase) {
 	}
 }
 
-var recNTS = ev.New("c14/nts-extension-fields", "rapid: packets with unique id 32..64 bytes, 1..8 cookies of 1..200 bytes, 0..7 placeholders, plaintext 0..600 bytes, constrained by construction to fit the 1024-byte maximum; encoded with EncodePacket, walked by an independent RFC 7822 walker (alignment, lengths, exact kind sequence 0x104,0x204*,0x304*,0x404), decoded with DecodePacket (same kinds and counts, values equal up to zero padding, nonce/ciphertext equal to the wire); for a third of the packets also with 1..3 extension fields of unknown types (bodies that look like known field headers) in between: the known fields decode unchanged. Non-trivial: >= 1 placeholder; distinct by the case parameters")
+var recNTS = ev.New("c14/nts-extension-fields", "rapid: packets with unique id 32..64 bytes, 1..8 cookies of 1..200 bytes, 0..7 placeholders, plaintext 0..600 bytes, constrained by construction to fit the 1024-byte maximum; encoded with EncodePacket, walked by an independent RFC 7822 walker (alignment, lengths, exact kind sequence 0x104,0x204*,0x304*,0x404), decoded with DecodePacket (same kinds and counts, values equal up to zero padding, nonce/ciphertext equal to the wire); for four packets in five also with 4..16 bytes of additional padding in the authenticator field (RFC 8915 5.6): decodes to the same; for a third of the packets also with 1..3 extension fields of unknown types (bodies that look like known field headers) in between: the known fields decode unchanged. Non-trivial: >= 1 placeholder; distinct by the case parameters")
 
 func genNTS(t *rapid.T) ntsCase {
 	c := ntsCase{
